@@ -609,6 +609,41 @@ def derived_ops(h, spec, sources, case, tmp):
             observe(h, "parse_args", p, lambda: p.parse_args(argv), {"args": argv}, c)
 
 
+def workflow(h, spec, mk_conv, mk_bad, case, tmp):
+    """Histories and fault sequences: the usual chain of calls on ONE parser and ONE configuration, with failing calls in between;
+    every call is observed against the state it found (so an earlier change is not blamed on a later call)."""
+    p = spec.build()
+    r = outcome(p.parse_args, spec.argv(mk_conv()))
+    if r[0] != "ok":
+        return
+    cfg = r[1]
+    out = os.path.join(tmp, "out", "flow.yaml")
+    bad = spec.wrap(mk_bad())
+    state = {"defaults": Namespace()}
+
+    def get_defaults():
+        state["defaults"] = p.get_defaults()
+
+    steps = [  # (operation, call, its arguments at the time of the call)
+        ("validate", lambda: p.validate(cfg), lambda: {"cfg": cfg}),
+        ("dump", lambda: p.dump(cfg), lambda: {"cfg": cfg}),
+        ("parse_object", lambda: p.parse_object(bad), lambda: {"cfg_obj": bad}),  # a failing parse in between
+        ("instantiate_classes", lambda: p.instantiate_classes(cfg), lambda: {"cfg": cfg}),
+        ("dump", lambda: p.dump(cfg, skip_default=True, format="json"), lambda: {"cfg": cfg}),
+        ("parse_args", lambda: p.parse_args(["--nope"]), lambda: {}),
+        ("save", lambda: p.save(cfg, out, overwrite=True), lambda: {"cfg": cfg}),
+        ("parse_object", lambda: p.parse_object(cfg), lambda: {"cfg_obj": cfg}),
+        ("parse_args", lambda: p.parse_args(["--print_config"], namespace=cfg), lambda: {"namespace": cfg}),
+        ("get_defaults", get_defaults, lambda: {}),
+        ("merge_config", lambda: p.merge_config(cfg, state["defaults"]), lambda: {"cfg_from": cfg, "cfg_to": state["defaults"]}),
+        ("instantiate_classes", lambda: p.instantiate_classes(cfg), lambda: {"cfg": cfg}),
+        ("format_help", p.format_help, lambda: {}),
+        ("validate", lambda: p.validate(cfg), lambda: {"cfg": cfg}),
+    ]
+    for n, (op, fn, args) in enumerate(steps):
+        observe(h, op, p, fn, args(), {**case, "op": op, "workflow_step": n, "workflow": [s[0] for s in steps[:n + 1]]})
+
+
 # --------------------------------------------------------------------------------------------------------------------
 # second clause: instantiate twice
 # --------------------------------------------------------------------------------------------------------------------
@@ -941,6 +976,9 @@ def grid_unit(h, style, shape, tmp):
                    ("get_defaults()", lambda p: p.get_defaults())]
         derived_ops(h, spec, sources, {**base_case, "value_kind": "derived", "value": to_json(maker("conv")())}, tmp)
         h.nontrivial((style, sname, ename, "derived"))
+        workflow(h, spec, maker("conv"), maker("bad"), {**base_case, "value_kind": "workflow on one parser, cfg = parse_args(conv value)",
+                                                        "value": to_json(maker("conv")())}, tmp)
+        h.nontrivial((style, sname, ename, "workflow"))
         del LOG[:]
 
 
@@ -1022,7 +1060,7 @@ def main():
     grid = ("6 styles x 16 shapes x 6 element kinds + 64 seeded random depth-3 container types (flat style) x 6 element kinds; nargs='+' x {int, float, Enum}" if h.thorough else
             "flat style: 16 shapes x {int, float, Enum, Optional[int]} + 6 shapes x {class spec, dataclass}; other 5 styles: 4 shapes x {int, Enum} + 2 shapes x {class spec}; nargs='+' x {int, float, Enum}")
     sys.exit(h.finish(exhaustive=True, bound=grid + " (hashable element kinds only inside sets) x 3 value kinds x 19 raw calls + 4 derived configurations x 11 calls + "
-                      "6 argument-less calls; 21 class-spec placements x <= 3 inputs x 3 sources instantiated twice; 25 cwd/environ/argparse cases x 3 "
+                      "6 argument-less calls + one 14-call workflow (failing calls in between) on a single parser and configuration; 21 class-spec placements x <= 3 inputs x 3 sources instantiated twice; 25 cwd/environ/argparse cases x 3 "
                       "operations + parse_path/parse_env/save cases"))
 
 
